@@ -480,9 +480,11 @@ PROPS = {
     },
     "C05": {
         "lean_modules": ["Dbg.Props.C05"],
-        "theorems": ["Filter.C05_ranges_tile", "Filter.C05_passes_le", "Filter.C05_count_summary", "Filter.mem_bucketRanges"],
-        "partial": ["C05_filter_eq_ref_full (table and all-k-mers list equal the pass-free reference grouping for every read set and budget): "
-                    "stated, not yet proved; decided on every run by evaluating the reference on the crate's output for pass counts 1..256"],
+        "theorems": ["Filter.C05_filter_eq_ref", "Filter.C05_pass_independent", "Filter.C05_keys_ascending", "Filter.C05_ranges_tile",
+                     "Filter.C05_passes_le", "Filter.C05_range_shape", "Filter.C05_count_summary"],
+        "partial": ["exts_are_flanks / filter_WF_ExtSym (the extension set of a key is the union of the flanking bases of its observations; tables "
+                    "from reads are well-formed and reciprocal): not yet proved - the union is by definition of summarize, the flank "
+                    "characterisation of the (k-mer, exts) stream rests on C13's iterator theorem"],
         "n_quick": 2500, "n_thorough": 150000,
         "nontrivial": lambda toks, impl: impl.startswith("passes=") and impl.split("|")[1].count(",") >= 1, "tags": _c05_tags,
         "shrink": _reads_shrink(10),
